@@ -97,23 +97,39 @@ func c05Src(ts []*c05Tpl) string {
 	}
 	return sb.String()
 }
+// how front-matter blocks are written in this case (0: plain LF)
+var c05FenceStyle int
+
 func (c c05Comp) Source() string {
 	var sb strings.Builder
 	if len(c.fm) > 0 {
-		sb.WriteString("---\n")
+		// the block as editors write it: LF or CRLF line ends, blanks after a fence
+		nl, open, closing := "\n", "---\n", "---\n"
+		switch (c05FenceStyle + len(c.file) + len(c.fm)) % 5 {
+		case 1:
+			nl, open, closing = "\r\n", "---\r\n", "---\r\n"
+		case 2:
+			open = "--- \n"
+		case 3:
+			closing = "---\t\n"
+		}
+		if c05FenceStyle == 0 {
+			nl, open, closing = "\n", "---\n", "---\n"
+		}
+		sb.WriteString(open)
 		for _, kv := range c.fm {
 			switch kv.V.K {
 			case "str":
-				fmt.Fprintf(&sb, "%s: %q\n", kv.K, kv.V.S)
+				fmt.Fprintf(&sb, "%s: %q%s", kv.K, kv.V.S, nl)
 			case "int":
-				fmt.Fprintf(&sb, "%s: %d\n", kv.K, kv.V.I)
+				fmt.Fprintf(&sb, "%s: %d%s", kv.K, kv.V.I, nl)
 			case "bool":
-				fmt.Fprintf(&sb, "%s: %v\n", kv.K, kv.V.B)
+				fmt.Fprintf(&sb, "%s: %v%s", kv.K, kv.V.B, nl)
 			case "nil":
-				fmt.Fprintf(&sb, "%s: ~\n", kv.K)
+				fmt.Fprintf(&sb, "%s: ~%s", kv.K, nl)
 			}
 		}
-		sb.WriteString("---\n")
+		sb.WriteString(closing)
 	}
 	if c.wrapper {
 		req := ""
@@ -247,6 +263,7 @@ func runC05(r *Run) {
 	}
 	files := []string{"components/Card.vuego", "components/RowItem.vuego", "components/ui/BadgeBox.vuego"}
 	for c := 0; c < n; c++ {
+		c05FenceStyle = c % 6
 		g := &c05Gen{r: rr, views: map[int][]c04View{}}
 		// components: BadgeBox is a leaf, RowItem may include BadgeBox, Card may include both
 		mkFM := func() []KV {
